@@ -78,6 +78,8 @@ def gas_pool():
     add([("P", 1)]); add([("P", 1), ("H", 1)]); add([("P", 1), ("H", 2)]); add([("P", 1), ("H", 2)], 1); add([("P", 1), ("H", 3)], 1)
     add([("H", 3)], 1, label="p"); add([("H", 3)], 1, label="o")
     # long chains: two-digit counts
+    # one species in two negative charge states (C- is in the list above)
+    add([("C", 1)], -2); add([("O", 1)], -2)
     add([("C", 10)]); add([("C", 11)]); add([("C", 12)], 1); add([("H", 1), ("C", 11), ("N", 1)]); add([("C", 11), ("H", 1)])
     add([("C", 6), ("H", 14)]); add([("C", 24), ("H", 12)])
     return P
